@@ -41,6 +41,8 @@ class QExpr:
         if isinstance(n, ast.UnaryOp) and isinstance(n.op, ast.USub):
             return '(- %s)' % self.tr(n.operand)
         if isinstance(n, ast.BinOp):
+            if isinstance(n.op, ast.FloorDiv):
+                return '(inject_Z (Qfloor (%s / %s)))' % (self.tr(n.left), self.tr(n.right))
             op = {ast.Add: '+', ast.Sub: '-', ast.Mult: '*', ast.Div: '/'}.get(type(n.op))
             if op is None:
                 fail(n, 'unsupported operator', self.path)
